@@ -280,12 +280,56 @@ def rule_orderins(ctx):
     me = [c for c in s.calls() if c.callee == "util.match_events"]
     good = len(me) == 2 and all(a.op == "iter" for c in me for a in c.args[:2])
     yield ob(R, f, "multipitch.compute_num_true_positives:frames", good, "each frame's frequencies are handed whole to util.match_events (no positional access)")
+    # ... and nothing else in the function (guards, shortcuts) reads a frame by position
+    pos = []
+    seen = set()
+
+    def scan(t):
+        for x in tm.walk(t):
+            if x.id in seen:
+                continue
+            seen.add(x.id)
+            if x.op == "sub" and x.a[0].op == "iter" and x.a[0].a[0].op == "param" and x.a[0].a[0].a[0] in ("ref_freqs", "est_freqs"):
+                pos.append(tm.show(x, 3))
+
+    for st in s.sites:
+        for v in st.d.values():
+            if isinstance(v, tm.T):
+                scan(v)
+            elif isinstance(v, (list, tuple)):
+                for z in v:
+                    if isinstance(z, tm.T):
+                        scan(z)
+        for c, _p in symeval.pc_conds(st.pc):
+            scan(c)
+    yield ob(R, f, "multipitch.compute_num_true_positives:no-positional-frame-access", not pos, "no element of a frame is read by position" if not pos else "frame elements are read by position (%s): the result depends on the order of the frequencies inside a frame" % ", ".join(sorted(set(pos))[:3]))
+    # pattern.standard_FPR: the verdict for one reference pattern does not depend on earlier iterations
+    f = ctx.program.func("pattern.standard_FPR", R)
+    s = ctx.S.get(f.qual)
+    carried = set()
+    for st in s.sites:
+        if not any(x[0] == "loop" for x in st.pc):
+            continue
+        for c, _p in symeval.pc_conds(st.pc):
+            for x in tm.walk(c):
+                if x.op == "loopvar":
+                    carried.add(x.a[1])
+    muts = sorted({m.root or "?" for m in s.by_kind("mutate") if m.how != "aug" and any(x[0] == "loop" for x in m.pc)})
+    yield ob(R, f, "pattern.standard_FPR:no-loop-carried-decision", not carried and not muts, "whether a reference pattern is found depends only on that pattern and the set of estimated patterns" if not carried and not muts else "the match decision reads state carried over from earlier iterations (%s): the count depends on the order of the pattern lists" % ", ".join(sorted(carried | set(muts))))
     # pattern: every reference pattern is visited and the per-pattern results are reduced symmetrically
     for q in ("pattern.establishment_FPR", "pattern.occurrence_FPR"):
         f = ctx.program.func(q, R)
         s = ctx.S.get(q)
         loops = [it for lid, (node, it) in s.loops.items() if it.op == "call" and call_name(it) == "builtins.enumerate" and it.a[1][0].op == "param" and it.a[1][0].a[0] == "reference_patterns"]
         yield ob(R, f, "%s:visits-all-reference-patterns" % q, len(loops) == 1, "the reference pattern list is traversed completely (enumerate(reference_patterns))")
+
+
+def rule_labelcanon(ctx):
+    """Shared with C16.CASEFOLD: label identity is equality of str(label).lower(); a bijective renaming that keeps
+    labels distinct keeps them distinct after canonicalisation only if nothing else is normalised away."""
+    from . import c16
+
+    yield from c16.fold_exact(ctx, "C08.LABELCANON")
 
 
 def rule_labellist(ctx):
@@ -296,8 +340,9 @@ def rule_labellist(ctx):
 
 
 RULES = [
+    ("C08.LABELCANON", 1, rule_labelcanon),
     ("C08.LABELLIST", 7, rule_labellist),
     ("C08.AFFINE", 30, rule_affine),
     ("C08.EQONLY", 12, rule_eqonly),
-    ("C08.ORDERINS", 18, rule_orderins),
+    ("C08.ORDERINS", 20, rule_orderins),
 ]
